@@ -27,6 +27,7 @@ type Program struct {
 	infos    map[*ssa.Function]*fnInfo
 	fset     *token.FileSet
 	execInit map[*ssa.Package]bool
+	kfClaim  sync.Map
 }
 
 func (p *Program) info(fn *ssa.Function) *fnInfo {
@@ -147,6 +148,8 @@ type Exec struct {
 	P       *Program
 	ctx     *Ctx
 	solver  *Solver
+	solver2 *Solver
+	fallbacks int
 	cfg     *HarnessCfg
 	entry   *ssa.Function
 
@@ -183,6 +186,8 @@ type Exec struct {
 	idxMemo  map[string]*Term
 	threadedPath bool
 	lockViol map[string]bool
+	kfWitness []string
+	kfModels  map[string]map[string]interface{}
 	curInstr ssa.Instruction
 	maxOf    map[*Object]int
 	timerObjs map[*Object]*Timer
@@ -254,13 +259,24 @@ func (ex *Exec) feasible(t *Term) SatResult {
 	if ex.unsatCache[t.id] {
 		return Unsat
 	}
-	ex.flush()
-	r := ex.solver.CheckWith(t)
+	r := ex.checkWith(t)
 	if r == Unknown {
 		ex.sawUnknown = true
 	}
 	if r == Unsat {
 		ex.unsatCache[t.id] = true
+	}
+	return r
+}
+
+// checkWith asks the primary solver; on unknown/timeout the fallback solver decides
+// the same query from scratch (path condition re-asserted).
+func (ex *Exec) checkWith(t *Term) SatResult {
+	ex.flush()
+	r := ex.solver.CheckWith(t)
+	if r == Unknown && ex.solver2 != nil {
+		ex.fallbacks++
+		r = ex.solver2.CheckFresh(ex.pc, t)
 	}
 	return r
 }
